@@ -161,10 +161,12 @@ pub struct Acts {
     pub relu: corgi::activation::Activation,
     pub sigmoid: corgi::activation::Activation,
     pub softmax: corgi::activation::Activation,
+    pub mse: corgi::cost::CostFunction,
+    pub cross_entropy: corgi::cost::CostFunction,
 }
 impl Acts {
     pub fn fresh() -> Rc<Acts> {
-        Rc::new(Acts { relu: corgi::activation::relu(), sigmoid: corgi::activation::sigmoid(), softmax: corgi::activation::softmax() })
+        Rc::new(Acts { relu: corgi::activation::relu(), sigmoid: corgi::activation::sigmoid(), softmax: corgi::activation::softmax(), mse: corgi::cost::mse(), cross_entropy: corgi::cost::cross_entropy() })
     }
 }
 thread_local! {
@@ -244,6 +246,8 @@ impl Exec {
             Sigmoid => a[0].sigmoid(),
             Softmax => a[0].softmax(),
             ActRelu | ActSigmoid | ActSoftmax | Stack(_) => unreachable!(),
+            CostMse => (self.acts.mse)(a[0], a[1]),
+            CostCe => (self.acts.cross_entropy)(a[0], a[1]),
             CAdd | CMul | CScale(_) | CFused3 | CBAdd | CBMul => {
                 let id = self.n_custom;
                 let (fw, bw) = custom_closures(op, id, Rc::clone(&self.log));
